@@ -1,10 +1,10 @@
 ------------------------------- MODULE ShmXferTrace -------------------------------
 (* Trace validation for ShmXfer: a recorded real history (one client script run over a real ShmPipeTransport pair)
-   must be a behaviour of ShmXfer!Spec.  A trace = [cap, world, ev]; one logged event per client-visible step, with
+   must be a behaviour of ShmXfer!Spec.  A trace = [cap, world, att, ev]; one logged event per client-visible step, with
    the allocation table (offsets relative to the data region) read from the real segment header afterwards:
      [e |-> "Unary", rq, res, out, r, tab]   [e |-> "Begin", k, ci, co, fail, nout]
      [e |-> "Input", r ("data"|"err"|"stop"|"cb"), via, keep, chk (is tab meaningful: server quiescent), tab]   [e |-> "Close", how, tab]
-     [e |-> "EndCall", rel, tab]   [e |-> "ReleaseHeld", off, tab]
+     [e |-> "EndCall", rel, tab]   [e |-> "ReleaseHeld", off, tab]   [e |-> "NewSegment", tab]
    Server halves are silent steps inferred by TLC.  The set of repairs fx is chosen per trace (any subset): a trace is
    accepted iff some fx explains it; the verdict lists the accepting fx sets and, per fx, the ShmXfer clauses that were
    false in some state on the way.
@@ -14,8 +14,8 @@ Traces == JsonDeserialize(IOEnv.TRACE_FILE)
 VARIABLES tid, l
 tvars == <<vars, tid, l>>
 TraceInit == /\ tid \in 1..Len(Traces) /\ l = 1
-             /\ cfg = [cap |-> Traces[tid].cap, world |-> Traces[tid].world]
-             /\ fx \in SUBSET AllFixes /\ mem = {} /\ held = {} /\ st = Idle /\ bad = {}
+             /\ cfg = [cap |-> Traces[tid].cap, world |-> Traces[tid].world, att |-> Traces[tid].att]
+             /\ fx \in SUBSET AllFixes /\ mem = {} /\ held = {} /\ st = Idle /\ bad = {} /\ seg = 0
 Evs == Traces[tid].ev
 More == l <= Len(Evs)
 Ev == Evs[l]
@@ -23,7 +23,7 @@ Layout(m) == {<<r.off, r.len>> : r \in m}
 Tab(e) == {<<e.tab[i][1], e.tab[i][2]>> : i \in 1..Len(e.tab)}
 Eat == l' = l + 1 /\ UNCHANGED tid
 Stay == UNCHANGED <<l, tid>>
-Kind(out) == CASE out = "ok" -> "result" [] out = "err" -> "err" [] OTHER -> "cb"
+Kind(out) == CASE out = "ok" -> "result" [] out \in {"err", "unk"} -> "err" [] OTHER -> "cb"
 
 TUnary1 == More /\ Ev.e = "Unary" /\ BeginUnary(Ev.rq, Ev.res, Ev.out) /\ Stay
 TUnary2 == SUnary /\ Stay
@@ -42,7 +42,8 @@ TClose2 == SEnd /\ Stay
 TClose3 == More /\ Ev.e = "Close" /\ st.pc = "s_drain" /\ Layout(mem) = Tab(Ev) /\ UNCHANGED vars /\ Eat
 TEnd == More /\ Ev.e = "EndCall" /\ EndCall(Ev.rel) /\ Layout(mem') = Tab(Ev) /\ Eat
 TRel == More /\ Ev.e = "ReleaseHeld" /\ ReleaseHeld(Ev.off) /\ Layout(mem') = Tab(Ev) /\ Eat
-TraceNext == TUnary1 \/ TUnary2 \/ TUnary3 \/ TBegin \/ TInput1 \/ TInput2 \/ TInput3 \/ TClose1 \/ TClose2 \/ TClose3
+TNew == More /\ Ev.e = "NewSegment" /\ NewSegment /\ Layout(mem') = Tab(Ev) /\ Eat
+TraceNext == TNew \/ TUnary1 \/ TUnary2 \/ TUnary3 \/ TBegin \/ TInput1 \/ TInput2 \/ TInput3 \/ TClose1 \/ TClose2 \/ TClose3
              \/ TEnd \/ TRel
 TraceSpec == TraceInit /\ [][TraceNext]_tvars
 
